@@ -150,6 +150,13 @@ func (d *describer) desc(v any) Node {
 	if rv.Kind() == reflect.Ptr && rv.IsNil() {
 		return Node{"t": "nilptr", "go": typeName(rv.Type())}
 	}
+	// named types over a basic kind describe themselves by their value (the static type of a getter is recorded apart)
+	switch rv.Kind() {
+	case reflect.String:
+		return Node{"t": "string", "v": rv.String()}
+	case reflect.Int, reflect.Int64:
+		return Node{"t": rv.Kind().String(), "v": fmt.Sprint(rv.Int())}
+	}
 	if dd, ok := v.(Describable); ok {
 		vw := dd.XDesc()
 		if rv.Kind() == reflect.Ptr && !strings.HasPrefix(vw.Ty, "*") {
@@ -538,6 +545,9 @@ type (
 	T2 struct{ Obj }
 	T3 struct{ Obj }
 	T4 struct{ Obj }
+	// named types with a basic underlying type: what a typed getter converts to
+	Str string
+	Num int
 )
 
 func (o *Obj) XDesc() rt.View {
@@ -562,6 +572,9 @@ func New1(args ...any) *Obj { return mk("New1", args) }
 func New2(args ...any) *Obj { return mk("New2", args) }
 func New3(args ...any) *Obj { return mk("New3", args) }
 func New4(args ...any) *Obj { return mk("New4", args) }
+
+// NewStr returns a plain string: a service that a getter of a named string type (Str) has to convert.
+func NewStr(args ...any) string { return ID + ".NewStr(" + render(args) + ")" }
 
 func NewVal(args ...any) Val {
 	rt.Count(ID + ".NewVal")
@@ -700,5 +713,8 @@ type (
 	T2 struct{ Obj }
 	T3 struct{ Obj }
 	T4 struct{ Obj }
+	// named types with a basic underlying type: what a typed getter converts to
+	Str string
+	Num int
 )
 `
